@@ -53,6 +53,26 @@ func isMtxCall(ins ssa.Instruction, mtx *types.Var, name string) bool {
 	return f != nil && f.Origin() == mtx
 }
 
+// isUnlockPoint: the instruction at which the critical section of mtx ends on this path — a direct Unlock call, or the
+// function's rundefers when an Unlock of mtx was deferred on this path.
+func isUnlockPoint(s *an.State, ins ssa.Instruction, mtx *types.Var) bool {
+	if isMtxCall(ins, mtx, "Unlock") {
+		return true
+	}
+	if _, ok := ins.(*ssa.RunDefers); !ok {
+		return false
+	}
+	return s.Executed(ins, func(i ssa.Instruction) bool {
+		d, ok := i.(*ssa.Defer)
+		if !ok || len(d.Call.Args) == 0 {
+			return false
+		}
+		fo := an.CallObj(&d.Call)
+		f := an.FieldOfAddr(d.Call.Args[0])
+		return fo != nil && fo.Name() == "Unlock" && f != nil && f.Origin() == mtx
+	})
+}
+
 func isCallToFn(ins ssa.Instruction, f *ssa.Function) bool {
 	call, ok := ins.(*ssa.Call)
 	return ok && f != nil && call.Call.Value == ssa.Value(f)
@@ -258,7 +278,7 @@ func c22(c *an.Check) {
 		}
 		c.Gate(an.GateSpec{Rule: "MUSTCALL", Construct: "signaling server " + site.name + " critical section", Fn: fn,
 			Sink: func(s *an.State, ins ssa.Instruction) bool {
-				if !isMtxCall(ins, mtx, "Unlock") {
+				if !isUnlockPoint(s, ins, mtx) {
 					return false
 				}
 				return lastStore(s, ins) != nil
